@@ -53,7 +53,13 @@ struct ByteSource {
         r = std::ldexp(flag() ? -m : m, e);
         break;
       }
-      case 14: { unsigned k = choose(3); r = k == 0 ? prev : ulp_step(prev, k == 1 ? 1 : -1); break; }
+      case 14: {
+        unsigned k = choose(3); r = k == 0 ? prev : ulp_step(prev, k == 1 ? 1 : -1);
+        // subnormal values are outside the generated domain: gradual underflow voids every relative error bound
+        // (a subnormal times a coefficient is rounded to 1 part in 2, and any later large factor amplifies that)
+        if (r != 0 && std::fabs(r) < 2.2250738585072014e-308) r = 0.0;
+        break;
+      }
       default: r = -prev; break;
     }
     prev = r;
